@@ -287,65 +287,111 @@ theorem lookup_case_insensitive (t : List (Str × TVal)) (s s' : Str) (h : lower
 theorem lookup_sound (fk : DirList) (ig : List Str) (sn : DirList) (s : Str) (p : Prov)
     (h : getFake (buildTable fk ig sn) s = .found p) :
     ∃ e ∈ entries fk ig sn, e.2 = .impl p ∧ canon e.1 = canon s := by
+  have key : ∀ k, canon k = canon s → implOf (dictGet (buildTable fk ig sn) k) = some p →
+      ∃ e ∈ entries fk ig sn, e.2 = .impl p ∧ canon e.1 = canon s := by
+    intro k hk hi
+    cases hd : dictGet (buildTable fk ig sn) k with
+    | none => simp [hd, implOf] at hi
+    | some w =>
+      cases w with
+      | notImpl => simp [hd, implOf] at hi
+      | impl q =>
+        simp only [hd, implOf, Option.some.injEq] at hi
+        subst hi
+        obtain ⟨e, he, hk', hv⟩ := Proofs.C18.mem_buildTable (Proofs.C18.dictGet_mem hd)
+        exact ⟨e, he, hv.symm, by rw [← Proofs.C18.canon_key hk', hk]⟩
   unfold getFake at h
   split at h
   · rename_i q hq
     cases h
-    obtain ⟨e, he, hk, hv⟩ := Proofs.C18.mem_buildTable (Proofs.C18.dictGet_mem hq)
-    refine ⟨e, he, hv.symm, ?_⟩
-    rw [← Proofs.C18.canon_key hk, Proofs.C18.canon_lower]
-  · cases h
+    exact key _ (Proofs.C18.canon_lower s) hq
+  · split at h
+    · rename_i q hq
+      cases h
+      exact key _ (Proofs.C18.canon_canon s) hq
+    · cases h
 
-/-- **canonical_lookup.** If attributes with the same canonical name denote the same thing
-    (`Consistent`, a decidable condition on the two `dir()` lists), then every spelling of an
-    attribute's name — any mixture of case, with all or with none of its underscores — resolves to
-    that attribute (or to "no such name" when it is `NotImplemented`). -/
+/-- **canonical_lookup (full strength, after fix 6b5b124).** If attributes with the same
+    canonical name denote the same thing (`Consistent`, a decidable condition on the two `dir()`
+    lists), then *every* spelling with the canonical form of an attribute's name — any mixture of
+    case, any subset of its underscores, even additional ones — resolves to that attribute (or to
+    "no such name" when it is `NotImplemented`). -/
 theorem canonical_lookup (fk : DirList) (ig : List Str) (sn : DirList)
     (hc : Consistent (entries fk ig sn)) (e : Str × TVal) (he : e ∈ entries fk ig sn)
-    (s : Str) (hs : Spelling s e.1) :
+    (s : Str) (hs : AnySpelling s e.1) :
     getFake (buildTable fk ig sn) s = resolve e.2 := by
-  -- some pair with the key exists
-  have hex : ∃ w, dictGet (buildTable fk ig sn) (lower s) = some w := by
-    unfold entries at he
-    rcases List.mem_append.1 he with h | h
-    · rcases hs with hs | hs
-      · apply Proofs.C18.dictGet_of_mem (v := e.2)
-        rw [hs]
-        unfold buildTable
-        simp only [List.mem_append]
-        exact Or.inl (Or.inl (Or.inl (Proofs.C18.objToFuncList_mem h)))
-      · apply Proofs.C18.dictGet_of_mem (v := e.2)
-        rw [hs]
-        unfold buildTable
-        simp only [List.mem_append]
-        exact Or.inl (Or.inl (Or.inr (Proofs.C18.objToFuncList_mem h)))
-    · obtain ⟨w, hw⟩ := Proofs.C18.snow_segment_has_key h hs
-      refine ⟨w, ?_⟩
-      unfold buildTable
-      rw [List.append_assoc]
-      exact Proofs.C18.dictGet_append_right hw
-  obtain ⟨w, hw⟩ := hex
-  obtain ⟨e', he', hk, hv⟩ := Proofs.C18.mem_buildTable (Proofs.C18.dictGet_mem hw)
-  have hcan : canon e'.1 = canon e.1 := by
-    rw [← Proofs.C18.canon_key hk, Proofs.C18.spelling_canon hs]
-  rw [Proofs.C18.getFake_of_dictGet hw, hv, hc e' he' e he hcan]
+  unfold AnySpelling at hs
+  apply Proofs.C18.getFake_eq_resolve
+  · intro w hw
+    exact Proofs.C18.table_value fk ig sn hc e he _ (by rw [Proofs.C18.canon_lower, hs]) w hw
+  · rw [hs]
+    exact Proofs.C18.canon_key_present fk ig sn e he
+  · intro w hw
+    exact Proofs.C18.table_value fk ig sn hc e he _ (by rw [Proofs.C18.canon_canon, hs]) w hw
 
-/-- **Snowfakery names win.** If Snowfakery's own attributes are consistent among themselves,
-    every spelling of one of them resolves to it — whatever Faker (or a provider plugin) defines
-    under the same or a similar name. -/
+/-- the all-or-none spellings are a special case -/
+theorem spelling_is_anySpelling (s n : Str) (h : Spelling s n) : AnySpelling s n := by
+  unfold AnySpelling
+  rw [← Proofs.C18.canon_lower s]
+  exact Proofs.C18.spelling_canon h
+
+/-- **Snowfakery names win (full strength).** If Snowfakery's own attributes are consistent
+    among themselves, every spelling of one of them — any case, any placement of underscores —
+    resolves to it, whatever Faker (or a provider plugin) defines under the same canonical name,
+    *unless the spelling is literally (up to case) the name of a Faker attribute* — that exact
+    spelling then denotes Faker's attribute (`postal_code` in ko_KR next to Snowfakery's
+    `postalcode`: see `snow_wins_needs_hypothesis`). -/
 theorem snow_wins (fk : DirList) (ig : List Str) (sn : DirList)
+    (hc : Consistent (sn.filter (visible []))) (e : Str × TVal) (he : e ∈ sn.filter (visible []))
+    (s : Str) (hs : AnySpelling s e.1)
+    (hlit : ∀ e' ∈ fk.filter (visible ig), lower e'.1 ≠ lower s) :
+    getFake (buildTable fk ig sn) s = resolve e.2 := by
+  unfold AnySpelling at hs
+  obtain ⟨wc, hwc⟩ := Proofs.C18.snow_canon_key sn e he
+  apply Proofs.C18.getFake_eq_resolve
+  · intro w hw
+    rcases Proofs.C18.table_cases fk ig sn _ w hw with h | ⟨hnone, hF⟩
+    · exact Proofs.C18.snow_table_value sn hc e he _ (by rw [Proofs.C18.canon_lower, hs]) w h
+    · exfalso
+      rcases List.mem_append.1 (Proofs.C18.dictGet_mem hF) with h | h
+      · obtain ⟨e', he', hk, _⟩ := Proofs.C18.mem_objToFuncList h
+        exact hlit e' he' hk.symm
+      · obtain ⟨e', he', hk, _⟩ := Proofs.C18.mem_objToFuncList h
+        -- the spelling has no underscore, so it is the canonical key, which the snow segments hold
+        have h1 : canon s = lower s := by
+          show noUnderscore (lower s) = lower s
+          rw [hk]; exact Proofs.C18.noUnderscore_canon _
+        rw [← h1, hs, hwc] at hnone
+        cases hnone
+  · rw [hs]
+    exact ⟨wc, Proofs.C18.snow_value fk ig sn _ _ hwc⟩
+  · intro w hw
+    rcases Proofs.C18.table_cases fk ig sn _ w hw with h | ⟨hnone, _⟩
+    · exact Proofs.C18.snow_table_value sn hc e he _ (by rw [Proofs.C18.canon_canon, hs]) w h
+    · rw [hs, hwc] at hnone
+      cases hnone
+
+/-- All-or-none spellings (the attribute's own name or its canonical form, in any case) need no
+    side condition: both are keys of the Snowfakery segments. -/
+theorem snow_wins_all_or_none (fk : DirList) (ig : List Str) (sn : DirList)
     (hc : Consistent (sn.filter (visible []))) (e : Str × TVal) (he : e ∈ sn.filter (visible []))
     (s : Str) (hs : Spelling s e.1) :
     getFake (buildTable fk ig sn) s = resolve e.2 := by
-  obtain ⟨w, hw⟩ := Proofs.C18.snow_segment_has_key he hs
-  obtain ⟨e', he', hk, hv⟩ := Proofs.C18.snow_segment_sound (Proofs.C18.dictGet_mem hw)
-  have hcan : canon e'.1 = canon e.1 := by
-    rw [← Proofs.C18.canon_key hk, Proofs.C18.spelling_canon hs]
-  have hw' : dictGet (buildTable fk ig sn) (lower s) = some w := by
-    unfold buildTable
-    rw [List.append_assoc]
-    exact Proofs.C18.dictGet_append_right hw
-  rw [Proofs.C18.getFake_of_dictGet hw', hv, hc e' he' e he hcan]
+  have hany := spelling_is_anySpelling s e.1 hs
+  unfold AnySpelling at hany
+  obtain ⟨wc, hwc⟩ := Proofs.C18.snow_canon_key sn e he
+  obtain ⟨w1, hw1⟩ := Proofs.C18.snow_segment_has_key he hs
+  apply Proofs.C18.getFake_eq_resolve
+  · intro w hw
+    rw [Proofs.C18.snow_value fk ig sn _ _ hw1] at hw
+    cases hw
+    exact Proofs.C18.snow_table_value sn hc e he _ (by rw [Proofs.C18.canon_lower, hany]) w1 hw1
+  · rw [hany]
+    exact ⟨wc, Proofs.C18.snow_value fk ig sn _ _ hwc⟩
+  · intro w hw
+    rw [hany, Proofs.C18.snow_value fk ig sn _ _ hwc] at hw
+    cases hw
+    exact Proofs.C18.snow_table_value sn hc e he _ (Proofs.C18.canon_canon _) wc hwc
 
 instance (es : List (Str × TVal)) : Decidable (Consistent es) := by
   unfold Consistent; infer_instance
@@ -353,41 +399,38 @@ instance (es : List (Str × TVal)) : Decidable (Consistent es) := by
 /-- The attributes of `FakeNames` on the pinned commit are consistent … -/
 theorem snowDir_consistent : Consistent (snowDir.filter (visible [])) := by decide
 
-/-- … so every spelling of `email`, `user_name`/`UserName`/`USERNAME`, `date_time`, … reaches
-    Snowfakery's implementation in every locale and with every provider plugin. -/
+/-- … so every spelling of `email`, `user_name`/`UserName`/`USER__NAME`/`U_sername`, `date_time`, …
+    that is not literally a Faker attribute's name reaches Snowfakery's implementation in every
+    locale and with every provider plugin. -/
 theorem snowfakery_names_win (fk : DirList) (ig : List Str) (e : Str × TVal) (he : e ∈ snowDir)
-    (s : Str) (hs : Spelling s e.1) : getFake (buildTable fk ig snowDir) s = resolve e.2 := by
+    (s : Str) (hs : AnySpelling s e.1)
+    (hlit : ∀ e' ∈ fk.filter (visible ig), lower e'.1 ≠ lower s) :
+    getFake (buildTable fk ig snowDir) s = resolve e.2 := by
   have hv : snowDir.filter (visible []) = snowDir := by decide
-  exact snow_wins fk ig snowDir snowDir_consistent e (by rw [hv]; exact he) s hs
+  exact snow_wins fk ig snowDir snowDir_consistent e (by rw [hv]; exact he) s hs hlit
 
-/-
-Full reading of "without regard to … underscores" (any subset of the underscores may be dropped
-or added), FALSE for the code as it is — see `canonical_lookup_refuted` (D18):
+theorem snowfakery_names_win_all_or_none (fk : DirList) (ig : List Str) (e : Str × TVal)
+    (he : e ∈ snowDir) (s : Str) (hs : Spelling s e.1) :
+    getFake (buildTable fk ig snowDir) s = resolve e.2 := by
+  have hv : snowDir.filter (visible []) = snowDir := by decide
+  exact snow_wins_all_or_none fk ig snowDir snowDir_consistent e (by rw [hv]; exact he) s hs
 
-  theorem canonical_lookup_full … (s : Str) (hs : canon s = canon e.1) :
-      getFake (buildTable fk ig sn) s = resolve e.2
--/
+/-- The side condition of `snow_wins` is necessary: with a Faker attribute `postal_code` (as in
+    locale ko_KR) the spelling `postal_code` of Snowfakery's `postalcode` denotes Faker's. -/
+theorem snow_wins_needs_hypothesis :
+    ∃ (fk : DirList) (e : Str × TVal) (s : Str), e ∈ snowDir ∧ AnySpelling s e.1 ∧
+      getFake (buildTable fk [] snowDir) s ≠ resolve e.2 :=
+  ⟨[("postal_code".toList, .impl (.other "fk".toList))],
+   ("postalcode".toList, .impl (.other "postalcode".toList)), "postal_code".toList,
+   by decide, by unfold AnySpelling; decide, by decide⟩
 
-/-- **D18: spellings that keep only some of the underscores are rejected.**
-    `date_timebetween` has the canonical form of `date_time_between` and yet does not resolve. -/
-theorem canonical_lookup_refuted :
-    ∃ (e : Str × TVal) (s : Str), e ∈ snowDir ∧ canon s = canon e.1 ∧
-      resolve e.2 ≠ .noSuchName ∧ getFake (buildTable [] [] snowDir) s = .noSuchName :=
-  ⟨("date_time_between".toList, .impl (.other "date_time_between".toList)),
-   "date_timebetween".toList, by decide, by decide, by decide, by decide⟩
-
-/-- … and the canonical form itself is accepted for every attribute (the `_partial` version of
-    the full reading: the spelling must be the lower-cased name or the canonical form, in any case). -/
-theorem canonical_lookup_partial (fk : DirList) (ig : List Str) (sn : DirList)
-    (hc : Consistent (entries fk ig sn)) (e : Str × TVal) (he : e ∈ entries fk ig sn) (s : Str)
-    (hs : canon s = canon e.1) (hfull : lower s = lower e.1 ∨ noUnderscore (lower s) = lower s) :
-    getFake (buildTable fk ig sn) s = resolve e.2 := by
-  apply canonical_lookup fk ig sn hc e he s
-  rcases hfull with h | h
-  · exact Or.inl h
-  · right
-    rw [← h]
-    exact hs
+/-- D18 is repaired: the spelling that used to be rejected resolves (regression witness). -/
+theorem partial_underscore_resolves :
+    getFake (buildTable [] [] snowDir) "date_timebetween".toList
+      = .found (.other "date_time_between".toList) ∧
+    getFake (buildTable [] [] snowDir) "Date__Time_Between".toList
+      = .found (.other "date_time_between".toList) ∧
+    getFake (buildTable [] [] snowDir) "date_timethis_year".toList = .noSuchName := by decide
 
 /-! ## remembered values -/
 
@@ -495,6 +538,7 @@ example : UuidSurvives (some "Al".toList) (some "Bo".toList) true
       uuid := "886023f2-eb7a-4d6b-9c1e-0123456789ab".toList } := by unfold UuidSurvives; decide
 example : Spelling "User_NAME".toList "user_name".toList ∧ Spelling "UserName".toList "user_name".toList := by
   unfold Spelling; decide
+example : AnySpelling "U_ser__NAME".toList "user_name".toList := by unfold AnySpelling; decide
 example : getFake (buildTable [("user_name".toList, .impl (.other "faker".toList))] [] snowDir)
     "USERNAME".toList = .found .userName := by decide
 
